@@ -246,5 +246,21 @@ def run(m: Model, r: Report, tier: str) -> None:
                 any(ast.unparse(k.value) == "self.src_addr" for k in n.keywords) for n in ast.walk(ac.node)), "R11",
             f"{ac.qualname}#source-address", "the alive check response must carry the configured source address", loc=ac.loc)
 
+    # the reply really goes out: header (AliveCheckResponse type) + payload are written in one buffer and drained, on every path
+    ga = CFG(ac.node)
+    hv = {n.targets[0].id for n in ast.walk(ac.node) if isinstance(n, ast.Assign) and isinstance(n.targets[0], ast.Name) and isinstance(n.value, ast.Call) and ast.unparse(n.value.func) == "GenericHeader"}
+    pv = {n.targets[0].id for n in ast.walk(ac.node) if isinstance(n, ast.Assign) and isinstance(n.targets[0], ast.Name) and isinstance(n.value, ast.Call) and ast.unparse(n.value.func) == "AliveCheckResponse"}
+    wnodes = {n.id for n in ga.nodes.values() if n.kind == "stmt" and n.ast is not None and any(
+        isinstance(x, ast.Call) and ast.unparse(x.func) == "self.writer.write" and len(x.args) == 1 and isinstance(x.args[0], ast.BinOp) and isinstance(x.args[0].op, ast.Add)
+        and isinstance(x.args[0].left, ast.Call) and ast.unparse(x.args[0].left.func) in {f"{h_}.pack" for h_ in hv}
+        and isinstance(x.args[0].right, ast.Call) and ast.unparse(x.args[0].right.func) in {f"{p_}.pack" for p_ in pv} for x in ast.walk(n.ast))}
+    dnodes = {n.id for n in ga.nodes.values() if n.kind == "stmt" and n.ast is not None and "self.writer.drain()" in ast.unparse(n.ast)}
+    okw_, _ = ga.must_pass(ga.entry, wnodes, {ga.exit_return}) if wnodes else (False, [])
+    okd_, _ = ga.must_pass(ga.entry, dnodes, {ga.exit_return}) if dnodes else (False, [])
+    r.check(okw_ and okd_, "R11", f"{ac.qualname}#written-and-drained", "the alive check response (header + payload) must be written and drained on every path", loc=ac.loc)
+    hk = [k for n in ast.walk(ac.node) if isinstance(n, ast.Call) and ast.unparse(n.func) == "GenericHeader" for k in n.keywords]
+    r.check(any(k.arg == "PayloadType" and ast.unparse(k.value) == "PayloadTypes.AliveCheckResponse" for k in hk), "R11", f"{ac.qualname}#payload-type",
+            "the reply must be announced as AliveCheckResponse", loc=ac.loc)
+
     r.assumptions += ["asyncio.StreamReader.readexactly returns exactly n bytes or raises", "StreamWriter.write of one buffer is not interleaved with other writes"]
     r.not_decided += ["behaviour under all segmentations/interleavings (delegated to readexactly and the queue)", "timing values"]
